@@ -86,6 +86,8 @@ static jwt_value_error_t jwt_get_json(json_t *which, jwt_value_t *jval)
 
 	if (json_val == NULL)
 		return jval->error = JWT_VALUE_ERR_NOEXIST;
+	else if (!json_is_object(json_val) && !json_is_array(json_val))
+		return jval->error = JWT_VALUE_ERR_TYPE;
 
 	jval->json_val = json_dumps(json_val, flags);
 	if (jval->json_val == NULL)
